@@ -5,6 +5,7 @@
 package sesshist
 
 import (
+	"context"
 	"fmt"
 	"sort"
 	"strings"
@@ -31,6 +32,7 @@ const (
 	kClose
 	kAnnounce
 	kOperate
+	kFlush // a Flush RPC of the (empty) second network instance: election id l.ID, or override when Override is set
 )
 
 type stamp int
@@ -75,6 +77,8 @@ type Letter struct {
 	K     kind
 	S     int
 	ID    ID
+	// Override: kFlush only
+	Override bool
 	St    stamp
 	Entry int   // index into Entries
 	Batch []int // operate: several entries in one request (overrides Entry)
@@ -322,6 +326,23 @@ func (in *inst) Apply(li int, check bool) []mc.Fail {
 			return nil
 		}
 		out = append(out, in.operate(l, s, check)...)
+	case kFlush:
+		// Flush is election-gated but is not an announcement: whatever id it carries and whatever the verdict, the
+		// election (id and primary) is what the Modify sessions made it.
+		master0, id0 := in.srv.VerifElection()
+		req := &spb.FlushRequest{NetworkInstance: &spb.FlushRequest_Name{Name: V}}
+		if l.Override {
+			req.Election = &spb.FlushRequest_Override{Override: &spb.Empty{}}
+		} else {
+			req.Election = &spb.FlushRequest_Id{Id: l.ID.Proto()}
+		}
+		_, err := in.srv.Flush(context.Background(), req)
+		if err == nil {
+			in.fold.Flush(V)
+		}
+		if master1, id1 := in.srv.VerifElection(); master1 != master0 || !proto.Equal(id0, id1) {
+			bad("C05/flush-changed-election", "%s (error: %v) changed the election from %s/%v to %s/%v", l.Name, err, master0, fromProto(id0), master1, fromProto(id1))
+		}
 	}
 	if check {
 		out = append(out, in.stateChecks()...)
@@ -453,6 +474,14 @@ func (in *inst) operate(l Letter, s *sess, check bool) []mc.Fail {
 		}
 	}
 	after := in.snapshot()
+	closed := false
+	if len(errs) > 0 && in.prim != l.S {
+		// "... or ends that RPC with an error": the end of a non-primary session's RPC is part of what its
+		// operation did, and must leave the primary's held operations alone as well.
+		in.closeSession(s)
+		closed = true
+		after = in.snapshot()
+	}
 	if !authorised {
 		if in.o.Checks.Primary && check {
 			if noneAuthorised && after != before {
@@ -500,7 +529,9 @@ func (in *inst) operate(l Letter, s *sess, check bool) []mc.Fail {
 				bad("C06/more-than-one-rpc-error", "doModify wrote %d errors for one request (second: %v)", len(errs), status.Convert(e).Message())
 			}
 		}
-		in.closeSession(s)
+		if !closed {
+			in.closeSession(s)
+		}
 	}
 	return out
 }
@@ -666,6 +697,15 @@ func MakeLetters(n int, ids []ID, stamps []stamp, absIDs []ID, entries []string,
 			}
 			ls = append(ls, Letter{Name: fmt.Sprintf("operate s%d %v stamp=own", s, b), K: kOperate, S: s, St: stOwn, Batch: idx})
 		}
+	}
+	return ls
+}
+
+// FlushLetters are Flush RPCs of the second network instance carrying each of the ids, and one with override.
+func FlushLetters(ids []ID) []Letter {
+	ls := []Letter{{Name: "flush " + V + " override", K: kFlush, Override: true}}
+	for _, id := range ids {
+		ls = append(ls, Letter{Name: fmt.Sprintf("flush %s id=%v", V, id), K: kFlush, ID: id})
 	}
 	return ls
 }
